@@ -54,7 +54,7 @@ package router
 //@   requires nonnil(f) && f.data != nil
 //@   callsite frame.FrameV1.Unseal session-of-source [C07]: arg1 != nil && arg1.id == f.SrcIP()
 //@   ensures authenticated-as-source [C07]: err == nil ==> f.authBy != nil && f.authBy.id == f.SrcIP() && f.authBy.address.verified
-//@   ensures replay-refused-except-hop-duplicates [C07]: err == nil ==> f.unsealedBy == f.authBy || f.data[4] == uint8(frame.RouterHopPing) || f.data[4] == uint8(frame.RouterHopPingDeprecated)
+//@   ensures replay-refused-except-duplicate-announcements [C07]: err == nil ==> f.unsealedBy == f.authBy || ((f.data[4] == uint8(frame.RouterHopPing) || f.data[4] == uint8(frame.RouterHopPingDeprecated)) && hdr.PingType == announcePingType)
 //@   ensures body-in-message [C13]: err == nil ==> hdr != nil
 
 //@ func Router.handlePing
